@@ -37,7 +37,7 @@ CAP = {"quick": 24, "thorough": 60}
 
 
 def shards(tier, seed):
-    return campaign.tree_shards(TREES[tier], 2 if tier == "quick" else 10)
+    return campaign.tree_shards(TREES[tier], 2 if tier == "quick" else 10, capture=True)
 
 
 def run(shard, rec, tier, seed):
@@ -56,7 +56,7 @@ def run(shard, rec, tier, seed):
             rec.count("classes-wrapped", n)
             gen_root = os.path.join(t.staged.pkg_parent, "eolib", "protocol", "_generated")
             with LineFaults(gen_root, InjectedFault) as lf:
-                run_tree(rec, tier, seed, ti, spec, t, log, lf)
+                run_tree(campaign.CaptureRec(rec, ti), tier, seed, ti, spec, t, log, lf)
             rec.count("frames-recorded", log.records)
             rec.count("frames-that-raised", log.raised)
             rec.count("max-nesting-depth-seen", 0)
